@@ -211,6 +211,20 @@ def judge(rep: Report, item: Dict[str, Any], exp: Dict[str, Any]) -> None:
             continue
         if m is not None and not s["exception"] and abs(o * o * float(m) - 1.0) > tol:
             rep.violation(f"{cfg['op']} slot {slot}: scale^2 x measured count = {o * o * float(m):.10g} != 1; cfg={cfg}", {"item": item, "slot": slot}, key=f"unit:{cfg['op']}:{slot}")
+    # the scale of a gradient is fixed by shapes alone: it is the same when only THAT input requires a gradient (bias-only
+    # fine-tuning with frozen weights, a first layer whose data input needs none, ...)
+    grad_slots = [s for s in exp["slots"] if s["slot"] != "out" and obs.get(s["slot"]) is not None]
+    if cfg["op"] != "residual_add" and len(grad_slots) >= 2:
+        for s in grad_slots:
+            slot = s["slot"]
+            e2 = Fraction(s["scale2"][0], s["scale2"][1])
+            o2 = ops.probe(dict(cfg, grad_only=[slot]), 0)
+            f = None if o2["err"] else o2.get("bwd", {}).get(slot, {}).get("f")
+            tol = 1e-5 if cfg["op"] == "rms_norm" else 1e-9
+            if f is None or f <= 0 or abs(f * f - float(e2)) > tol * float(e2):
+                rep.violation(f"{cfg['op']} slot {slot}: with ONLY this input requiring a gradient the observed scale^2 = {None if f is None else f * f} "
+                              f"({o2['err'] or 'no error'}), spec Scale2 = {e2} = {float(e2):.10g}; cfg={cfg}",
+                              {"item": item, "slot": slot, "grad_only": [slot]}, key=f"scale_partial_grad:{cfg['op']}:{slot}")
 
 
 def run(rep: Report, tier: str) -> None:
